@@ -42,7 +42,11 @@ func (r *c19Reader) ReadAt(p []byte, off int64) (int, error) {
 			if e == 0 {
 				e = 4
 			}
-			n = copy(p[:len(p)*e/8], r.data[off:])
+			if e < 0 {
+				n = copy(p[:min(len(p), -e)], r.data[off:]) // a few bytes only
+			} else {
+				n = copy(p[:len(p)*e/8], r.data[off:])
+			}
 		}
 		return n, c19Injected
 	}
@@ -362,7 +366,7 @@ func TestVerifC19(t *testing.T) {
 			refs = append(refs, o.Ref)
 		}
 		refs = append(refs, d.Unwritten...)
-		nvariants := 3
+		nvariants := 4
 		if updated {
 			truth, xf := c20Truth(c, d)
 			if truth == nil || xf.XRefKind != "table" {
@@ -378,7 +382,7 @@ func TestVerifC19(t *testing.T) {
 			for _, nd := range u.defs {
 				refs = append(refs, nd.ref)
 			}
-			nvariants = 5
+			nvariants = 6
 			c.R.Count("documents_with_incremental_update", 1)
 		}
 		mi := c.Index % 3
@@ -398,8 +402,8 @@ func TestVerifC19(t *testing.T) {
 		}
 		for k := 1; k <= n; k++ {
 			for variant := 0; variant < nvariants; variant++ {
-				src := &c19Reader{data: d.Data, k: k, sticky: variant == 0, partial: variant >= 2, eighths: []int{0, 0, 4, 7, 6}[variant]}
-				vname := []string{"from-k-on", "only-k", "only-k-short-read", "only-k-short-read-7/8", "only-k-short-read-6/8"}[variant]
+				src := &c19Reader{data: d.Data, k: k, sticky: variant == 0, partial: variant >= 2, eighths: []int{0, 0, 4, -3, 7, 6}[variant]}
+				vname := []string{"from-k-on", "only-k", "only-k-short-read", "only-k-short-read-3-bytes", "only-k-short-read-7/8", "only-k-short-read-6/8"}[variant]
 				got := c19Scenario(d, src, mode, refs)
 				c.R.Count("fault_runs", 1)
 				if src.failed == 0 {
